@@ -30,6 +30,9 @@ MCEditsDev   == {E("b1", "dd", TRUE), E("b2c", "gen", FALSE), E("b1", "none", FA
 MCEditsWide  == {E("b1", "d1", TRUE), E("b1", "dd", FALSE), E("b2c", "gen", FALSE), E("b2c", "none", TRUE), E("b1", "gen", FALSE)}
 
 MCEditsQ     == {E("b1", "dd", TRUE), E("b2c", "gen", FALSE)}
+MCEncNone    == {}
+MCEncQ       == {"crlf"}
+MCEncAll     == {"crlf", "mixed", "nonl", "bom"}
 MCHelpers    == {"h", "hc"}
 MCHelpersQ   == {"hc"}
 MCHelpersH   == {"h"}
